@@ -76,7 +76,8 @@ def run(tier):
     lex_variant = [v for v in edef.variants if any(t.endswith('Error') for _, t in v[2])]
     lex_name = lex_variant[0][0] if lex_variant else None
     sub = e.variants[lex_name][[i for i, (_, t) in enumerate(lex_variant[0][2]) if t.endswith('Error')][0]] if lex_name else None
-    table = {}
+    # rows are (variant, lexical sub-error) -> set of codes: a code may depend on other payload fields
+    table_all = {}
     s.push()
     while check(s) == z3.sat:
         m = s.model()
@@ -86,12 +87,16 @@ def run(tier):
         if vname == lex_name:
             sd = m.eval(sub.discr, model_completion=True).as_long()
             _, sname, _ = ledef.variant_by_discr(sd)
-            table[(vname, sname)] = c
-            s.add(z3.Not(z3.And(e.discr == bv(d, 64), sub.discr == bv(sd, 64))))
+            table_all.setdefault((vname, sname), set()).add(c)
+            s.add(z3.Not(z3.And(e.discr == bv(d, 64), sub.discr == bv(sd, 64), code == bv(c, 16))))
         else:
-            table[(vname, '-')] = c
-            s.add(e.discr != bv(d, 64))
+            table_all.setdefault((vname, '-'), set()).add(c)
+            s.add(z3.Not(z3.And(e.discr == bv(d, 64), code == bv(c, 16))))
+        if sum(len(v) for v in table_all.values()) > 2000:
+            raise Inconclusive('Error::code takes more than 2000 (variant, code) combinations')
     s.pop()
+    table = {k: sorted(v)[0] for k, v in table_all.items()}
+    payload_dependent = {('%s/%s' % k): sorted(v) for k, v in table_all.items() if len(v) > 1}
 
     # (3) validate the translation natively on every row
     replay.write_generated({'error_codes': replay.gen_error_codes(defs)})
@@ -104,8 +109,9 @@ def run(tier):
         p = ln.split()
         if len(p) == 3:
             native[(p[0], p[1])] = int(p[2])
-    if native != table:
-        diff = {k: (table.get(k), native.get(k)) for k in set(table) | set(native) if table.get(k) != native.get(k)}
+    diff = {k: (sorted(table_all.get(k, [])), native.get(k)) for k in set(table_all) | set(native)
+            if native.get(k) not in table_all.get(k, set())}
+    if diff:
         raise Inconclusive('symbolic table and native Error::code disagree: %r' % diff)
 
     # (4) the property query: a value whose code has no heading (or the wrong letter)
@@ -118,7 +124,7 @@ def run(tier):
     while check(s) == z3.sat:
         m = s.model()
         c = m.eval(code, model_completion=True).as_long()
-        rows = sorted(k for k, v in table.items() if v == c)
+        rows = sorted(k for k, v in table_all.items() if c in v)
         offenders.append((c, rows))
         s.add(code != bv(c, 16))
     final_smt2 = '(set-logic ALL)\n' + s.to_smt2()
@@ -135,7 +141,7 @@ def run(tier):
     s.pop()
 
     # informational: documented codes no variant produces
-    produced = set(table.values())
+    produced = set(c for v in table_all.values() for c in v)
     orphan_docs = sorted(c for c in cat if c not in produced)
 
     known = known_keys(PROP)
@@ -179,6 +185,7 @@ def run(tier):
         'mir_dump_s': round(dump_s, 2),
         'cross_check': xres,
         'table_rows': len(table),
+        'payload_dependent_codes': payload_dependent,
         'undocumented_codes': ['%s%d' % (letter_for(c), c) for c, _ in sorted(offenders)],
         'documented_codes_never_produced': orphan_docs,
         'std_models_used': dict(ex.used_models),
